@@ -6,7 +6,7 @@
    random 32-bit arguments of ms / us.  Pairs whose exact result (or the library's
    intermediate seconds sum/difference) leaves the time_t range are skipped: the
    statement excludes overflow of the seconds field.  */
-#include "common.h"
+#include "sc.h"
 #include <limits.h>
 
 typedef __int128 i128;
